@@ -385,15 +385,39 @@ Qed.
    decoder cap makes the fail-fast run return at once, the marking run "falls through to the complex
    path and rediscovers the error there".  Redisc states that it does. *)
 Definition Redisc (deny : N) : Prop := forall hy db ap ascii,
+  Forall (fun b => b < 128) ascii ->
   has_punycode_prefix ascii = true ->
   negb match last_opt ascii with Some l => l =? HYPHEN | None => false end
     && (len ascii - 4 <=? PUNYCODE_DECODE_MAX_INPUT_LENGTH) = false ->
   M heT (complexF false hy deny db false ap ascii []).
 
+Lemma position_none f l : position f l = None -> Forall (fun b => f b = false) l.
+Proof.
+  induction l as [|x r IH]; intros H; [constructor|]. cbn [position] in H.
+  destruct (f x) eqn:E; [discriminate|]. destruct (position f r); [discriminate|]. constructor; auto.
+Qed.
+Lemma position_lt f l i : position f l = Some i -> (i < List.length l)%nat.
+Proof.
+  revert i. induction l as [|x r IH]; intros i H; [discriminate|]. cbn [position] in H.
+  destruct (f x); [inversion H; cbn [List.length]; lia|].
+  destruct (position f r) as [j|]; [|discriminate]. inversion H. cbn [List.length]. specialize (IH j eq_refl). lia.
+Qed.
+Lemma split_ascii_all label ascii :
+  split_ascii_fast_path_prefix label = (ascii, []) -> Forall (fun b => b < 128) ascii.
+Proof.
+  unfold split_ascii_fast_path_prefix. destruct (position (fun b => negb (is_ascii_cp b)) label) as [[|p]|] eqn:E.
+  - intros H. inversion H. subst. discriminate E.
+  - intros H. inversion H as [[H1 H2]]. apply position_lt in E.
+    assert (Hl : List.length (skipn p label) = 0%nat) by (rewrite H2; reflexivity).
+    rewrite skipn_length in Hl. lia.
+  - intros H. inversion H. subst. apply position_none in E.
+    eapply Forall_impl; [|exact E]. cbv beta. unfold is_ascii_cp. intros a Ha. lia.
+Qed.
+
 Lemma label_nonempty_R hy deny label db ap : Redisc deny ->
   R heT (label_nonempty A cfg true hy deny label db false ap) (label_nonempty A cfg false hy deny label db false ap).
 Proof.
-  intros HRd. rewrite !label_nonempty_eq. destruct (split_ascii_fast_path_prefix label) as [ascii non_ascii].
+  intros HRd. rewrite !label_nonempty_eq. destruct (split_ascii_fast_path_prefix label) as [ascii non_ascii] eqn:Es.
   destruct non_ascii as [|na nr]; [|apply complexF_R].
   destruct (has_punycode_prefix ascii) eqn:Eh; [|apply complexT_R].
   destruct (negb match last_opt ascii with Some l => l =? HYPHEN | None => false end
@@ -402,7 +426,7 @@ Proof.
     apply R_bind with (hx := he2); [apply after_punycode_decode_R| |].
     + he_intro. apply R_bind with (hx := he2); [apply check_label_R| |]; he_intro; [site|reflexivity].
     + he_intro. apply M_bind with (hx := he2); [apply check_label_M|]. he_intro. reflexivity.
-  - apply R_exit_of_M. apply HRd; assumption.
+  - apply R_exit_of_M. apply HRd; [exact (split_ascii_all label ascii Es)|assumption|assumption].
 Qed.
 
 (* ---- label_step / labels_loop ---- *)
